@@ -3058,7 +3058,166 @@ func normMapDesc(m ssa.Value) string {
 			}
 		}
 	}
+	// a name map of the model that reaches this place in a member of a scratch record, through a parameter, a local cell or a
+	// captured variable: it is the model's map under another name when every value that can arrive here is a read of that one
+	// model member
+	if theWorld != nil {
+		if names, complete := modelMapOrigins(m, 0, map[ssa.Value]bool{}); complete && len(names) == 1 {
+			for n := range names {
+				return n
+			}
+		}
+	}
 	return mapDesc(m)
+}
+
+// modelMapOrigins: the members of model records (named as mapDesc names them: ".PacketsMap") a map-typed value is a read of,
+// followed back through members of records that are not part of the model (every store into that member, anywhere in the repo),
+// local cells, captured variables, phis and parameters (every static call site). complete = every path back ended at a model member.
+func modelMapOrigins(v ssa.Value, depth int, seen map[ssa.Value]bool) (map[string]bool, bool) {
+	out := map[string]bool{}
+	if v == nil || depth > 8 {
+		return out, false
+	}
+	v = stripIdentity(v)
+	if seen[v] {
+		return out, true // a cycle adds nothing new
+	}
+	seen[v] = true
+	if _, isMap := v.Type().Underlying().(*types.Map); !isMap {
+		return out, false
+	}
+	complete := true
+	n := 0
+	add := func(x ssa.Value) {
+		n++
+		m, c := modelMapOrigins(x, depth+1, seen)
+		for k := range m {
+			out[k] = true
+		}
+		if !c {
+			complete = false
+		}
+	}
+	cellStores := func(al *ssa.Alloc) {
+		if al.Referrers() == nil {
+			return
+		}
+		for _, ref := range *al.Referrers() {
+			switch st := ref.(type) {
+			case *ssa.Store:
+				if st.Addr == ssa.Value(al) {
+					add(st.Val)
+				}
+			case *ssa.UnOp, *ssa.MakeClosure, *ssa.DebugRef:
+			default:
+				complete = false // the cell's address escapes
+			}
+		}
+	}
+	memberStores := func(x ssa.Value) {
+		tn, fname, pkg, ok := fieldOf(x)
+		if !ok || tn == "" {
+			complete = false
+			return
+		}
+		if pkg == modPath+"/internal/model" {
+			out["."+fname] = true
+			n++
+			return
+		}
+		for _, g := range theWorld.allFuncsInRepo() {
+			forEachInstr(g, func(_ *ssa.BasicBlock, ins ssa.Instruction) {
+				st, ok := ins.(*ssa.Store)
+				if !ok {
+					return
+				}
+				if fa, ok := st.Addr.(*ssa.FieldAddr); ok {
+					if tn2, f2, pkg2, _ := fieldOf(fa); tn2 == tn && f2 == fname && pkg2 == pkg {
+						add(st.Val)
+					}
+				}
+			})
+		}
+	}
+	binding := func(fv *ssa.FreeVar, each func(b ssa.Value)) {
+		g := fv.Parent()
+		if g == nil || g.Parent() == nil {
+			complete = false
+			return
+		}
+		for j, f2 := range g.FreeVars {
+			if f2 != fv {
+				continue
+			}
+			forEachInstr(g.Parent(), func(_ *ssa.BasicBlock, ins ssa.Instruction) {
+				if mc, ok := ins.(*ssa.MakeClosure); ok && mc.Fn == ssa.Value(g) && j < len(mc.Bindings) {
+					each(mc.Bindings[j])
+				}
+			})
+		}
+	}
+	switch x := v.(type) {
+	case *ssa.Phi:
+		for _, e := range x.Edges {
+			add(e)
+		}
+	case *ssa.Field:
+		memberStores(x)
+	case *ssa.UnOp:
+		if x.Op != token.MUL {
+			return out, false
+		}
+		switch c := x.X.(type) {
+		case *ssa.FieldAddr:
+			memberStores(c)
+		case *ssa.Alloc:
+			cellStores(c)
+		case *ssa.FreeVar:
+			binding(c, func(b ssa.Value) {
+				if al, ok := b.(*ssa.Alloc); ok {
+					cellStores(al)
+				} else {
+					complete = false
+				}
+			})
+		default:
+			return out, false
+		}
+	case *ssa.FreeVar:
+		binding(x, add)
+	case *ssa.Parameter:
+		fn := x.Parent()
+		for i, p := range fn.Params {
+			if p != x {
+				continue
+			}
+			for _, g := range theWorld.allFuncsInRepo() {
+				forEachInstr(g, func(_ *ssa.BasicBlock, ins ssa.Instruction) {
+					c, ok := ins.(ssa.CallInstruction)
+					if !ok {
+						return
+					}
+					if c.Common().StaticCallee() == fn && i < len(c.Common().Args) {
+						add(c.Common().Args[i])
+					} else if c.Common().StaticCallee() == nil && !c.Common().IsInvoke() {
+						// entered as a function value: the arguments of that call are not followed
+						for _, t := range calleesOfAll(c) {
+							if t == fn {
+								complete = false
+							}
+						}
+					}
+				})
+			}
+		}
+	default:
+		return out, false
+	}
+	if n == 0 {
+		complete = false
+	}
+	return out, complete
 }
 
 // mayReport: g (or something it calls, three levels) raises a diagnostic on some path.
